@@ -205,6 +205,11 @@ func TestVerifC01SQLBenignTable(t *testing.T) {
 				before, vb := e.spy.ran, e.spy.verdicts
 				got := call(e, path, oc.err)
 				m.Count("calls_failing", 1)
+				if e.spy.ran > before && got == breaker.ErrServiceUnavailable {
+					m.Violate("C01:reject:req-ran", desc, "call #%d ran the protected function and still returned ErrServiceUnavailable", i)
+					bad = true
+					break
+				}
 				if e.spy.ran == before {
 					rej++
 					if first < 0 {
